@@ -44,7 +44,9 @@ var goldenVariants = []gvariant{
 	{"cert-truncated", func(w *world, g *epb.VMGoldenMeasurement) { g.Cert = g.Cert[:len(g.Cert)/2] }},
 	{"cert-trailing-bytes", func(w *world, g *epb.VMGoldenMeasurement) { g.Cert = append(append([]byte(nil), g.Cert...), 0, 0) }},
 	{"cert-is-root", func(w *world, g *epb.VMGoldenMeasurement) { g.Cert = w.root.Raw }},
-	{"cert-der-length-huge", func(w *world, g *epb.VMGoldenMeasurement) { g.Cert = []byte{0x30, 0x84, 0xff, 0xff, 0xff, 0xff, 0x30, 0x03} }},
+	{"cert-der-length-huge", func(w *world, g *epb.VMGoldenMeasurement) {
+		g.Cert = []byte{0x30, 0x84, 0xff, 0xff, 0xff, 0xff, 0x30, 0x03}
+	}},
 	{"cert-pem", func(w *world, g *epb.VMGoldenMeasurement) { g.Cert = pemBlock("CERTIFICATE", g.Cert) }},
 	{"no-digest", func(w *world, g *epb.VMGoldenMeasurement) { g.Digest = nil }},
 	{"digest-1-byte", func(w *world, g *epb.VMGoldenMeasurement) { g.Digest = []byte{1} }},
@@ -52,9 +54,14 @@ var goldenVariants = []gvariant{
 	{"sev-empty", func(w *world, g *epb.VMGoldenMeasurement) { g.SevSnp = &epb.VMSevSnp{} }},
 	{"sev-no-measurements", func(w *world, g *epb.VMGoldenMeasurement) { g.SevSnp.Measurements = nil }},
 	{"sev-measurement-key-0", func(w *world, g *epb.VMGoldenMeasurement) { g.SevSnp.Measurements = map[uint32][]byte{0: w.m4} }},
-	{"sev-measurement-empty", func(w *world, g *epb.VMGoldenMeasurement) { g.SevSnp.Measurements[4] = nil; g.SevSnp.Measurements[1] = []byte{} }},
+	{"sev-measurement-empty", func(w *world, g *epb.VMGoldenMeasurement) {
+		g.SevSnp.Measurements[4] = nil
+		g.SevSnp.Measurements[1] = []byte{}
+	}},
 	{"sev-measurement-47", func(w *world, g *epb.VMGoldenMeasurement) { g.SevSnp.Measurements[4] = w.m4[:47] }},
-	{"sev-measurement-49", func(w *world, g *epb.VMGoldenMeasurement) { g.SevSnp.Measurements[4] = append(append([]byte(nil), w.m4...), 0) }},
+	{"sev-measurement-49", func(w *world, g *epb.VMGoldenMeasurement) {
+		g.SevSnp.Measurements[4] = append(append([]byte(nil), w.m4...), 0)
+	}},
 	{"sev-measurement-4k", func(w *world, g *epb.VMGoldenMeasurement) { g.SevSnp.Measurements[4] = make([]byte, 4096) }},
 	{"sev-measurements-2000", func(w *world, g *epb.VMGoldenMeasurement) {
 		for k := uint32(9); k < 2009; k++ {
@@ -67,7 +74,9 @@ var goldenVariants = []gvariant{
 	{"sev-policy-debug", func(w *world, g *epb.VMGoldenMeasurement) { g.SevSnp.Policy |= 1 << 19 }},
 	{"sev-policy-reserved-clear", func(w *world, g *epb.VMGoldenMeasurement) { g.SevSnp.Policy &^= 1 << 17 }},
 	{"sev-svn-max", func(w *world, g *epb.VMGoldenMeasurement) { g.SevSnp.Svn = math.MaxUint32 }},
-	{"sev-family-id-1-byte", func(w *world, g *epb.VMGoldenMeasurement) { g.SevSnp.FamilyId, g.SevSnp.ImageId = []byte{1}, make([]byte, 17) }},
+	{"sev-family-id-1-byte", func(w *world, g *epb.VMGoldenMeasurement) {
+		g.SevSnp.FamilyId, g.SevSnp.ImageId = []byte{1}, make([]byte, 17)
+	}},
 	{"sev-svsm-empty", func(w *world, g *epb.VMGoldenMeasurement) { g.SevSnp.SvsmMeasurement = nil }},
 	{"sev-svsm-1-byte", func(w *world, g *epb.VMGoldenMeasurement) { g.SevSnp.SvsmMeasurement = []byte{0} }},
 	{"sev-ca-garbage", func(w *world, g *epb.VMGoldenMeasurement) { g.SevSnp.CaBundle = []byte("garbage") }},
@@ -78,7 +87,9 @@ var goldenVariants = []gvariant{
 	{"sev-ca-three-certs", func(w *world, g *epb.VMGoldenMeasurement) {
 		g.SevSnp.CaBundle = bytes.Repeat(pemBlock("CERTIFICATE", w.signer.Raw), 3)
 	}},
-	{"sev-ca-private-key-type", func(w *world, g *epb.VMGoldenMeasurement) { g.SevSnp.CaBundle = pemBlock("PRIVATE KEY", []byte{1, 2, 3}) }},
+	{"sev-ca-private-key-type", func(w *world, g *epb.VMGoldenMeasurement) {
+		g.SevSnp.CaBundle = pemBlock("PRIVATE KEY", []byte{1, 2, 3})
+	}},
 	{"sev-ca-second-wrong-type", func(w *world, g *epb.VMGoldenMeasurement) {
 		g.SevSnp.CaBundle = append(pemBlock("CERTIFICATE", w.signer.Raw), pemBlock("X509 CRL", []byte{1})...)
 	}},
@@ -194,7 +205,7 @@ func (w *world) goldenVariant(idx, carrier int) ([]byte, string) {
 	}
 }
 
-const nBig = 18
+const nBig = 20
 
 // big builds inputs near the 1 MiB bound. Returns bytes, name and the seed kind whose native entry
 // points apply (all of them are cross-fed anyway).
@@ -222,6 +233,21 @@ func (w *world) big(k int) ([]byte, string, string) {
 		return signed(func(g *epb.VMGoldenMeasurement) {
 			g.SevSnp.CaBundle = bytes.Repeat([]byte("-----BEGIN CERTIFICATE-----\n"), 64<<10/28)
 		}), "endorsement-ca-bundle-begin-flood-64KiB", "endorsement"
+	case 18: // encoding/pem of Go 1.23 is quadratic on such input (64 KiB: ~0.2 s; 1 MiB would be ~20 s and still terminate, so it is not used)
+		return signed(func(g *epb.VMGoldenMeasurement) {
+			g.SevSnp.CaBundle = bytes.Repeat([]byte("-----BEGIN A-----\nB: c\n\n"), 64<<10/24)
+		}), "endorsement-ca-bundle-header-flood-64KiB", "endorsement"
+	case 19: // certificate table whose many entries all name the same large blob: n*len(blob) bytes for n*24+len(blob) of input
+		// (12000 entries x 288 KB = 3.4 GB against a budget of 2.4 GB for the 576 KB input)
+		const n = 12000
+		blob := make([]byte, n*24)
+		out := make([]byte, (n+1)*24)
+		for i := 0; i < n; i++ {
+			copy(out[i*24:], efiGUIDBytes(fmt.Sprintf("%08x-0000-4000-8000-000000000000", i+1)))
+			copy(out[i*24+16:], le32(uint32((n+1)*24)))
+			copy(out[i*24+20:], le32(uint32(len(blob))))
+		}
+		return append(out, blob...), "cert-table-12000-aliased-entries", "certtable"
 	case 3:
 		return signed(func(g *epb.VMGoldenMeasurement) {
 			for i := uint32(10); i < 15000; i++ {
